@@ -36,7 +36,7 @@ def check_mesh_data(ctx, kind, m, desc, d3):
 
 
 def fam_grid(ctx, rng):
-    which = rng.choice(['from_grid', 'from_polygon_grid', 'mesh_grid'])
+    which = rng.choice(['from_grid', 'from_polygon_grid', 'mesh_grid', 'mesh_grid'])
     if which == 'from_grid':
         nx, ny = rng.randint(1, 6), rng.randint(1, 6)
         dx, dy = G.dy(rng.uniform(0.1, 5)), G.dy(rng.uniform(0.1, 5))
@@ -74,8 +74,8 @@ def fam_grid(ctx, rng):
         used = {i for f in m.faces for i in f}
         m3 = None
     else:
-        fl = rng.random() < 0.3; gc = rng.random() < 0.5
-        off = rng.choice([0, 0, G.dy(rng.uniform(0.01, 1))])
+        fl = rng.random() < 0.5; gc = rng.random() < 0.6
+        off = rng.choice([0, G.dy(rng.uniform(0.01, 1)), G.dy(rng.uniform(0.01, 1))])
         frame = G.rational_frame(rng); o = G.rpt3(rng, 50)
         nh = rng.choice([0, 0, 1])
         hs = G.holes_in(rng, b, nh) if nh else []
